@@ -67,6 +67,12 @@ var lastChild = ""
 var loopDepth = 6
 
 func (c RCallGraph) BuildRCallChain(funcName string, methodMap map[string][]string) string {
+	loopCount = 0
+	lastChild = ""
+	return c.buildRCallChain(funcName, methodMap)
+}
+
+func (c RCallGraph) buildRCallChain(funcName string, methodMap map[string][]string) string {
 	if loopCount >= loopDepth {
 		return "\n"
 	}
@@ -80,7 +86,7 @@ func (c RCallGraph) BuildRCallChain(funcName string, methodMap map[string][]stri
 			}
 			if len(methodMap[child]) > 0 {
 				lastChild = child
-				arrayResult = arrayResult + c.BuildRCallChain(child, methodMap)
+				arrayResult = arrayResult + c.buildRCallChain(child, methodMap)
 			}
 			if funcName == child {
 				continue
